@@ -419,6 +419,75 @@ pub fn worker_c21(tier: &str) {
             }
         }
     }
+    // scale: files of many rules (clauses of several predicates interleaved, so that their order is
+    // observable), large files (beyond the usual buffer sizes), very long lines and comments
+    let scale_ns: Vec<usize> = if lv >= 2 { vec![4, 8, 9, 16, 17, 20, 21, 32, 33, 64, 65, 128, 129, 300, 600, 2000, 5000] } else { vec![8, 9, 16, 17, 20, 21, 32, 33, 64, 65, 128, 129, 300, 600] };
+    for &n in &scale_ns {
+        let my = idx;
+        idx += 1;
+        if describe.is_some() || !e.w.mine(my) {
+            continue;
+        }
+        e.w.begin(my);
+        let rules: Vec<String> = (0..n)
+            .map(|i| match i % 4 {
+                0 => format!("p{}({}) :- q({}), $X = {}.", i % 3, i, i, i),
+                1 => format!("p{}(item_{}, [a, {} | $T]).", i % 3, i, i),
+                2 => format!("p{}($X, $Y) :- $X <= {}; r($Y), not(s({})).", i % 3, i, i),
+                _ => format!("long_predicate_name_{}($Argument_one, $Argument_two) :- p0($Argument_one), p1($Argument_two, {}.5).", i % 2, i),
+            })
+            .collect();
+        let Some(expect) = expected_kb(&rules) else {
+            e.w.count("c21.skipped_rule_parser_rejects", 1);
+            continue;
+        };
+        e.w.count("c21.programs", 1);
+        e.w.count("c21.scale_programs", 1);
+        let all_breaks: Vec<u64> = rules.iter().map(|_| u64::MAX).collect();
+        let layouts: Vec<(Vec<u64>, Style, &str)> = vec![
+            (vec![], plain, "one-line-per-rule"),
+            (all_breaks.clone(), Style { indent: 2, blank: true, comment: 2, inner: 0 }, "all-breaks+comments"),
+            (all_breaks.clone(), Style { indent: 0, blank: false, comment: 1, inner: 2 }, "all-breaks+comment-lines"),
+            (vec![], Style { indent: 0, blank: true, comment: 3, inner: 0 }, "blank-lines+slashes"),
+        ];
+        for (subs, st, tag) in layouts {
+            let mut text = render(&rules, &subs, st);
+            if tag == "one-line-per-rule" {
+                // plus one very long comment line and one very long rule in the middle of the file
+                let long_comment = format!("# {}\n", "comment (with, punctuation. ".repeat(n.max(50)));
+                text = format!("{}{}", long_comment, text);
+            }
+            e.w.beat();
+            e.w.count("c21.files_loaded", 1);
+            e.w.count(&format!("c21.scale_file_bytes_max.{}", if text.len() > 65536 { ">64k" } else if text.len() > 8192 { ">8k" } else { "<=8k" }), 1);
+            let feats = format!("scale:{}:{}-rules", tag, n);
+            let wit = json!({"engine":"e4","kind":"c21","rules":rules,"file":text});
+            match load_and_compare(&path, &text, &expect) {
+                Loaded::Same => e.w.distinct("outcomes", &("same", tag, n)),
+                Loaded::Rejected(m) => e.viol("C21", format!("rejected-legal-layout:scale:{}", tag), format!("a legal file of {} rules ({} bytes) was rejected: {}", n, text.len(), m), wit),
+                Loaded::Different(kb) => {
+                    let kbt: String = kb.chars().take(1500).collect();
+                    e.viol("C21", format!("different-rules:scale:{}", tag), format!("a file of {} rules ({} bytes, layout {}) loaded without error as different rules (or in a different order); loaded knowledge base begins:\n{}", n, text.len(), feats, kbt), wit)
+                }
+                Loaded::Panic(m) => e.viol("C21", format!("panic:scale:{}", tag), format!("load_kb_from_file panicked on a file of {} rules: {}", n, m), wit),
+            }
+        }
+        // one rule with n goals on one line / broken after every comma
+        let long_rule = format!("big($X) :- {}.", (0..n.min(600)).map(|i| format!("g{}($X, {})", i % 7, i)).collect::<Vec<_>>().join(", "));
+        if let Some(expect1) = expected_kb(&[long_rule.clone()]) {
+            for subs in [vec![], vec![u64::MAX]] {
+                let text = render(&[long_rule.clone()], &subs, plain);
+                e.w.count("c21.files_loaded", 1);
+                let wit = json!({"engine":"e4","kind":"c21","rules":[long_rule.clone()],"file":text});
+                match load_and_compare(&path, &text, &expect1) {
+                    Loaded::Same => {}
+                    Loaded::Rejected(m) => e.viol("C21", "rejected-legal-layout:scale:long-rule".into(), format!("a rule of {} goals was rejected: {}", n.min(600), m), wit),
+                    Loaded::Different(_) => e.viol("C21", "different-rules:scale:long-rule".into(), format!("a rule of {} goals loaded as different rules", n.min(600)), wit),
+                    Loaded::Panic(m) => e.viol("C21", "panic:scale:long-rule".into(), format!("load_kb_from_file panicked on a rule of {} goals: {}", n.min(600), m), wit),
+                }
+            }
+        }
+    }
     let _ = std::fs::remove_file(&path);
     w.done();
 }
